@@ -1437,6 +1437,40 @@ def reachable_ps(body, start, removed_blocks=(), removed_edges=(), env0=None):
     return blocks
 
 
+def closure_captures(prog, parent, clos):
+    """operands of the closure aggregate in `parent` that builds `clos` (capture k -> Op), or None"""
+    for b in parent.blocks:
+        for st in b.stmts:
+            if st.kind == 'assign' and st.rv.r == 'aggregate' and st.rv.j.get('closure') == clos.defpath:
+                return st.rv.ops
+    return None
+
+
+def must_derive_captured(prog, parent, clos, local, is_src_parent, extra_transparent=()):
+    """`local` of closure `clos` must-derives from captured variables only, and each captured variable it reaches must-derives (in `parent`) from a
+    source accepted by is_src_parent"""
+    caps = closure_captures(prog, parent, clos)
+    if caps is None:
+        return False
+    used = set()
+
+    def src(kind, obj, bb):
+        if kind == 'assign' and obj.kind == 'assign' and obj.rv is not None:
+            pls = obj.rv.src_places()
+            if len(pls) == 1 and pls[0][0] == 1:
+                fs = [p for p in pls[0][1] if p[0] == 'f']
+                if fs:
+                    used.add(fs[0][1])
+                    return True
+        return False
+    if not must_derive(clos, local, src, extra_transparent=extra_transparent) or not used:
+        return False
+    for k in used:
+        if k >= len(caps) or caps[k].place is None or not must_derive(parent, caps[k].place[0], is_src_parent, extra_transparent=extra_transparent):
+            return False
+    return True
+
+
 def must_derive_ip(prog, body, local, is_src, depth=3, extra_transparent=(), _stack=()):
     """interprocedural must-derive: like must_derive, and additionally
     - the result of an exactly resolved call to a workspace function counts when that function's return value must-derives from a source
